@@ -340,6 +340,31 @@ def run(ctx):
         rb.close()
         model = ctx.driver.ask(ops)
         kit.compare(res, ops, impl, model)
+    # ---- the back-off function itself on a grid: failure counts 0-14 and around the give-up limit, clock values around
+    # every power-of-two bound and around the 30 min ceiling; against the model and against the documented bound
+    ops, impl = [], []
+    t0 = 1_700_000_000
+    for ban in list(range(0, 15)) + [2879, 2880, 2881, 5000]:
+        bound = min(10 * 2 ** ban, 1800) if ban <= 2880 else None
+        deltas = {0, 1, 9, 10, 11, 1279, 1280, 1281, 1799, 1800, 1801, 3600}
+        if bound is not None:
+            deltas |= {bound - 1, bound, bound + 1}
+        for last in (None, t0):
+            for dlt in sorted(deltas):
+                peer = DisconnectedRemotePeer("10.3.3.3", 2412, OUTGOING, last, ban)
+                got = bool(peer.is_time_to_connect(t0 + dlt))
+                ops.append("book ttc %d %s %d" % (ban, "-" if last is None else str(last), t0 + dlt))
+                impl.append("1" if got else "0")
+                res.case(("ttc", ban, last, dlt), nontrivial=True)
+                want = False if bound is None else (True if last is None else dlt >= bound)
+                if got != want:
+                    res.violations.append({"kind": "after %d failed attempts, %s s after the last attempt, is_time_to_connect says %s "
+                                                   "(documented: retry no earlier than min(10 s * 2^k, 30 min), give up after 2880)"
+                                                   % (ban, "no earlier attempt," if last is None else str(dlt), got),
+                                           "ban_score": ban, "seconds_since_last_attempt": None if last is None else dlt})
+    res.count("backoff_grid_points", len(ops))
+    model = ctx.driver.ask(ops)
+    kit.compare(res, ops, impl, model)
     # ---- the peers file: real write_peers in the scratch directory
     di = DiskInterface()
     for f in ("peers.json", "peers.json.new"):
